@@ -40,6 +40,7 @@ class HostGen:
         self.allow_until = allow_until
         self.allow_quantum = allow_quantum
         self.p_cond_regmeas = 0.04
+        self.templates = []       # template names for rotation numerators (C06)
         self.reg_operands = True   # may register handles be used as operands (they are segment-scoped)
 
     def name(self, p):
@@ -125,6 +126,8 @@ class HostGen:
             kinds = ["add"] * 3 + ["if"] * 3 + ["array"]
             if self.allow_quantum:
                 kinds += ["qalloc"] * 2 + ["gate"] * 3 + ["meas"] * 3 + ["cnot"]
+            if self.templates and self.allow_quantum:
+                kinds += ["rot"] * 4
             if depth < self.max_depth:
                 kinds += ["loop"] * 2 + ["foreach"] + (["until"] if self.allow_until else [])
             if self.allow_regs and top:
@@ -179,6 +182,17 @@ class HostGen:
         if not sc.qubits:
             return self.g_qalloc(sc, depth, mine, top)
         return {"op": "gate", "g": self.rng.choice(GATES), "q": self.rng.choice(sc.qubits)}
+
+    def g_rot(self, sc, depth, mine, top):
+        r = self.rng
+        pre = []
+        if not sc.qubits:
+            pre = self.g_qalloc(sc, depth, mine, top)
+            if pre is None:
+                return None
+        q = r.choice(sc.qubits)
+        n = {"tmpl": r.choice(self.templates)} if r.random() < 0.7 else r.choice([0, 1, 4, 8, 16, 31, 255])
+        return pre + [{"op": "rot", "axis": r.choice("xyz"), "q": q, "n": n, "d": r.choice([0, 1, 2, 3, 4, 4, 4])}]
 
     def g_cnot(self, sc, depth, mine, top):
         if len(sc.qubits) < 2:
